@@ -10,6 +10,7 @@ import (
 	"google.golang.org/protobuf/proto"
 
 	"github.com/smart-core-os/sc-golang/internal/minibus"
+	"github.com/smart-core-os/sc-golang/internal/verifhook"
 )
 
 // Value represents a simple state field in an object. Think Temperature or Volume or Occupancy. Use a Value to
@@ -76,6 +77,7 @@ func (r *Value) set(value proto.Message, request WriteRequest) (proto.Message, e
 		return nil, err
 	}
 
+	verifhook.Yield("value.set.beforeSend")
 	ctx, cancel := context.WithTimeout(context.TODO(), time.Second*5)
 	defer cancel()
 	r.bus.Send(ctx, &ValueChange{
@@ -140,6 +142,7 @@ func (r *Value) onUpdate(ctx context.Context, config *ReadRequest) (<-chan any, 
 		changeTime = r.changeTime
 	}
 
+	verifhook.Yield("value.onUpdate.beforeListen")
 	ch := r.bus.Listen(ctx)
 	if !config.Backpressure {
 		ch = minibus.DropExcess(ch)
